@@ -267,7 +267,7 @@ Proof.
         match goal with E : nth_error (gens _) _ = Some ?G0 |- _ => qset u (g_set_items G0 (g_items G0 ++ [t])) end.
         counts. intros Q.
         destruct (Nat.eq_dec t u) as [->|N].
-        -- right. split; [lia|]. split; [rewrite cnt_places; unfold queued; lia|]. apply (past_put_self s u SWait _ I). reflexivity.
+        -- right. split; [lia|]. split; [lia|]. apply (past_put_self s u SWait _ I). reflexivity.
         -- left. lia.
       * intros u P X. destruct (Nat.eq_dec u t) as [->|N].
         -- apply (past_put_self s t SWait _ I). reflexivity.
